@@ -53,6 +53,7 @@ def plan(tier, seed):
                 cases.append(dict(key=f"protocol/maxiter={maxiter}/items={items}/tol={tol}", kind="protocol", maxiter=maxiter, items=items, tol=tol, seed=seed, cost=maxiter**3))
     cases.append(dict(key="partitioned-solve", kind="solve", seed=seed, cost=3))
     cases.append(dict(key="callables", kind="callables", seed=seed, cost=2))
+    cases.append(dict(key="umat-path", kind="umatpath", seed=seed, cost=3))
     quick = tier == "quick"
     for (mk, fk) in FAMILIES:
         mats = E2_MATERIALS if (not quick or (mk, fk) in (("hexahedron", "3d"), ("quad", "ps"))) else ["LinearElastic", "NeoHooke", "NearlyIncompressibleBody"]
@@ -482,5 +483,54 @@ def run_callables(case):
     return c.result(dict(case=case["key"], problems=list(problems)))
 
 
+def run_umatpath(case):
+    """newtonrhapson driven through its default fun / jac of a constitutive material (no items): the kinematic options forwarded
+    by keyword, positionally through args=, and with the documented defaults spelled out positionally -- a successful solve is
+    an equilibrium of an independently assembled body and carries the prescribed values, for every way of forwarding"""
+    import felupe as fem
+
+    warnings.simplefilter("ignore")
+    c = Ctx(case["key"])
+    tol = np.sqrt(np.finfo(float).eps)
+    mesh = fem.Cube(n=3)
+    region = fem.RegionHexahedron(mesh)
+    for mlab, um in (("LinearElastic", fem.LinearElastic(E=1.0, nu=0.3)), ("NeoHooke", fem.NeoHooke(mu=1.0, bulk=2.0))):
+        sols = {}
+        for move in (0.0, 0.1):
+            for flab, fw in (("kwargs", dict(kwargs=dict(umat=um))), ("args", dict(args=(um,))), ("args+parallel", dict(args=(um, False))),
+                             ("args-defaults-spelled", dict(args=(um, False, True, True, False))), ("kwargs-defaults-spelled", dict(kwargs=dict(umat=um, parallel=False, grad=True, add_identity=True, sym=False)))):
+                field = fem.FieldContainer([fem.Field(region, dim=3)])
+                bounds, lc = fem.dof.uniaxial(field, clamped=True, move=move, axis=0, sym=False)
+                sub = f"{mlab}/move={move}/{flab}"
+                try:
+                    res = fem.newtonrhapson(field, dof1=lc["dof1"], dof0=lc["dof0"], ext0=lc["ext0"], verbose=False, **fw)
+                except Exception as ex:  # noqa
+                    c.bad(sub + "/exception", "the solve raised for a valid way of forwarding the options", repr(ex)[:160], "a converged field")
+                    continue
+                c.trans += 1
+                c.traces += 1
+                c.states += 1
+                if not res.success:
+                    continue
+                xv = res.x[0].values.ravel()
+                if np.abs(xv[lc["dof0"]] - lc["ext0"]).max() > 1e-14:
+                    c.bad(sub + "/constraints", "prescribed values not met", float(np.abs(xv[lc["dof0"]] - lc["ext0"]).max()), 0)
+                xf = res.x.copy()
+                r = fem.SolidBody(um, xf).assemble.vector(xf).toarray()[:, 0]
+                fnorm = np.linalg.norm(r[lc["dof1"]]) / (1e-3 + np.linalg.norm(r[lc["dof0"]]))
+                if not fnorm <= tol:
+                    c.bad(sub + "/equilibrium", "independently assembled residual on the free unknowns exceeds the tolerance although success was reported", float(fnorm), f"<= {tol:.2e}")
+                if move == 0.0 and np.abs(xv).max() > 1e-9:
+                    c.bad(sub + "/unloaded", "an unloaded clamped body moved", float(np.abs(xv).max()), 0)
+                c.nontrivial.append(sub)
+                sols.setdefault(move, {})[flab] = xv
+        for move, d_ in sols.items():
+            ref = d_.get("kwargs")
+            for flab, xv in d_.items():
+                if ref is not None and np.abs(xv - ref).max() > 1e-9 * max(np.abs(ref).max(), 1e-3):
+                    c.bad(f"{mlab}/move={move}/{flab}/same-solution", "solution depends on how the options were forwarded", float(np.abs(xv - ref).max()), 0)
+    return c.result(dict(case=case["key"]))
+
+
 def run(case):
-    return {"protocol": run_protocol, "solve": run_solve, "problem": run_problem, "callables": run_callables}[case["kind"]](case)
+    return {"protocol": run_protocol, "solve": run_solve, "problem": run_problem, "callables": run_callables, "umatpath": run_umatpath}[case["kind"]](case)
